@@ -122,9 +122,20 @@ var extTypes = []struct{ j5, full, kind string }{
 	{"any", "j5.types.any.v1.Any", "any"},
 }
 
+// textNoise: attributes the compiler accepts and the compared output must not depend on
+func textNoise(r *vh.Rand, u *uField) {
+	if r.Chance(8) {
+		u.ProtoField = vh.Pick(r, []int{1, 2, 3, 7, 11, 40})
+	}
+	if r.Chance(6) {
+		u.Desc = vh.Pick(r, []string{"a field", "the id", "x", "with \"quotes\""})
+	}
+}
+
 func genScalarField(r *vh.Rand, name string) uField {
 	t := vh.Pick(r, scalars)
 	u := uField{Name: name, J5Type: t.j5, PType: t.ptype, J5Kind: t.kind, Required: r.Chance(25), Bang: r.Bool(), SayFalse: r.Chance(20)}
+	textNoise(r, &u)
 	if r.Chance(18) {
 		x := vh.Pick(r, extTypes)
 		u.J5Type, u.PType, u.J5Kind, u.Ext = x.j5, 11, x.kind, x.full
@@ -187,6 +198,7 @@ func genInline(r *vh.Rand, name string) uField {
 
 func genKeyTyped(r *vh.Rand, name string) uField {
 	u := uField{Name: name, Key: true, KeyFmt: vh.Pick(r, []string{"", "id62", "uuid", "id62"}), PType: 9, J5Kind: "key", Required: r.Chance(30), Bang: r.Bool(), SayFalse: r.Chance(30)}
+	textNoise(r, &u)
 	if !u.Required && r.Chance(10) {
 		u.Optional = true
 	}
@@ -232,6 +244,9 @@ func genEntityOpt(r *vh.Rand, second bool, forcedName string) *entityDecl {
 	}
 	if r.Chance(15) {
 		d.BaseURL = vh.Pick(r, []string{"x/y", "custom", "a/b/c_d", "v1/things", "/rooted/", "dbl//slash", "trail/"})
+	}
+	if r.Chance(10) {
+		d.Desc = vh.Pick(r, []string{"The entity.", "multi word description", "x"})
 	}
 	// keys
 	// key names are free (the property quantifies over keys of any name): also the names the
